@@ -156,6 +156,9 @@ def rest_api():
               http=("get", "/v1/{parent=shelves/*/books/*}/chapters/{chapter_id}"))
     fb.method(s, "ReservedVar", "GetRequest", "Book", http=("get", "/v1/{class=things/*}"))
     fb.method(s, "NoHttp", "NoHttpRequest", "Book")
+    # a DELETE binding that declares a body (permitted by google.api.http)
+    fb.message("PurgeRequest", [("parent", "string", {"required": True}), ("filter", "string"), ("force", "bool")])
+    fb.method(s, "PurgeThings", "PurgeRequest", E, http=("delete", "/v1/{parent=shelves/*}/things", "*"))
     return [fb]
 
 
